@@ -11,7 +11,7 @@ OBL = ["restored-at-return", "no-dead-end"]
 TRUSTED = [
     "control half: skeleton Model/Skel.v + guards from gen/ (restored_last is a ghost bit set by the Run thread's restoreTerminalState and cleared by any of its mode-affecting actions)",
     "mode half: Model/Lifecycle.v interprets the GENERATED call lists of restoreTerminalState / Run over the renderer model; Proof/ModesProofs.v: from any tracked state the restore resets every mode (both cursor-visibility conventions)",
-    "terminal = Model/VT.v mode record (xterm private modes 25, 1049, 1002, 1003, 1006, 2004, 1004); termios is checked on a pty by C18, not here",
+    "terminal = Model/VT.v mode record (xterm private modes 25, 1049, 1002, 1003, 1006, 2004, 1004); termios is exercised on pseudo-terminals (handed in, and opened by the program in a child whose controlling terminal is a pty), not modelled",
     "reset-only sequences written concurrently by another shutdown caller (Kill, panicking command) are atomic under the renderer mutex (assumed)",
 ]
 
@@ -95,6 +95,31 @@ def matrix(tier, rnd):
                   P.DO("send", msg=P.U(3)), P.W("idle"), P.DO("quit") if cause == "quit" else P.DO("kill"), P.W("returned")]
         s = P.scenario(0, script, opts=o, inp={"kind": "ptyin"}, parallel_ok=True)
         add((s, {"cause": cause, "point": "idle:pty-hangup", "pending": "none", "causes": [cause], "opts": o, "modes_history": [m.get("b") for m in hist]}))
+    # the line discipline (termios): input on a terminal device handed in by the application (pty), and a terminal the
+    # program opens itself (WithInputTTY: the child process gets a pseudo-terminal as its controlling terminal)
+    tcases = [("quit", "idle"), ("kill", "update"), ("cancel", "view"), ("interrupt", "idle"), ("panic", "init"), ("panic", "update"), ("panic", "view"), ("cmdpanic", "idle")]
+    for k, (cause, point) in enumerate(tcases if tier == "quick" else tcases * 4):
+        o = rand_opts(rnd)
+        x = P.lifecycle_scenario(0, cause, point, "none", opts=o, inp_override={"kind": "tty"}, isolate=True)
+        if x:
+            x[0]["ctty"] = True
+            x[1]["termios"] = "input-tty"
+            add(x)
+        x = P.lifecycle_scenario(0, cause, point, "none", opts=o, inp_override={"kind": "ptyin"})
+        if x:
+            x[1]["termios"] = "pty"
+            add(x)
+    # a transient output error earlier in the run (one frame is lost: its Write fails once with EAGAIN): the exit path
+    # must still write the whole reset
+    for k in range(6 if tier == "quick" else 48):
+        o = rand_opts(rnd)
+        hist = [h for h in rand_history(rnd, o) if h.get("b") != "exec"]
+        cause = ["quit", "kill", "cancel", "interrupt"][k % 4]
+        end = {"quit": P.DO("quit"), "kill": P.DO("kill"), "cancel": P.DO("cancel"), "interrupt": P.DO("go-send", msg=P.B("interrupt"))}[cause]
+        script = [P.W("started"), P.W("idle"), P.DO("send", msg=P.U(1)), P.DO("sleep", us=30000), P.W("idle")] + [P.DO("send", msg=m) for m in hist] + \
+                 [P.W("idle"), P.DO("send", msg=P.U(3)), P.DO("sleep", us=30000), P.W("idle"), end, P.W("returned")]
+        s = P.scenario(0, script, opts=dict(o, fps=120), parallel_ok=True, out_fault={"match": "view 1", "times": 1}, ctx=(cause == "cancel"))
+        add((s, {"cause": cause, "point": "idle:after-write-error", "pending": "none", "causes": [cause], "opts": o, "modes_history": [m.get("b") for m in hist]}))
     # start-up failure after the terminal was initialised: a regular file as input (epoll refuses it)
     for _ in range(4 if tier == "quick" else 32):
         o = rand_opts(rnd)
@@ -117,7 +142,15 @@ def judge(res, metas, results, proofs_ok, broken, cex):
     bad = [(m, r) for m, r in pairs if r["id"] in bad_ids]
     res.oblige("Spec on real output (Coq: vt_run over the real mode tokens, both cursor-visibility conventions): all modes back to their defaults when Run has returned, %d runs" % len(items),
                not bad, [(m["cause"], m["point"], m["opts"], m["modes_history"], P.final_modes(P.mode_tokens(r["output"]))) for m, r in bad[:3]])
+    tbad = [(m, r) for m, r in pairs if m.get("termios") and not P.machinery_problem(r) and (r.get("crashed") or r.get("termios_restored") is not True)]
+    res.oblige("real runs on a terminal device (pty handed in; /dev/tty opened by the program in a child with a controlling pty): the line discipline is what it was before Run, %d runs" %
+               sum(1 for m in metas if m.get("termios")), not tbad, [(m["cause"], m["point"], m["termios"], r.get("termios_restored"), (r.get("crash_text") or "")[:200]) for m, r in tbad[:3]])
     found = False
+    for m, r in tbad[:1]:
+        res.violation("C05:termios:%s:%s@%s" % (m["termios"], m["cause"], m["point"]),
+                      "after Run returned (%s at %s) the terminal's line discipline is not what it was before (%s)" % (m["cause"], m["point"], m["termios"]),
+                      {"scenario_meta": m, "result": P.summarize(r)})
+        found = True
     for m, r in bad[:1]:
         fm = P.final_modes(P.mode_tokens(r["output"]))
         left = sorted(k for k, v in fm.items() if v != P.DEFAULT_MODES[k])
